@@ -1,0 +1,29 @@
+//go:build verif
+
+// Contracts for the job runner, read by /verif/govc.
+// This file contains comments only; it is compiled only with -tags verif.
+
+package job
+
+// jobDone: the jobs whose runner function returned without error (for the batcher: whose logs are persisted)
+//@ ghost jobDone set[any]
+
+// the function that runs a job: success means the job is done
+//@ spec JobRunnerFn(ctx, job)
+//@   update jobDone = ite(err == nil, add(jobDone, deref(job)), jobDone)
+//@   modifies ghost jobDone
+//@ fieldspec job.Runner.runner JobRunnerFn
+
+// C06: a job is reported as terminated only after its runner function succeeded ...
+//@ chanmsg in Runner[JOB]).Run: terminatedJobs: jobDone[deref(m)]      // C06
+// ... and only jobs reported that way get their Terminated() callback (which acknowledges the writes)
+//@ iface job.Job.Terminated
+//@   requires jobDone[recv]      // C06
+//@   pure
+
+// the worker: takes jobs, runs them, panics on error (never reports a failed job)
+//@ func (*job.Runner[JOB]).Run$2
+//@   property C06
+// the dispatcher loop
+//@ func (*job.Runner[JOB]).Run
+//@   property C06
